@@ -17,6 +17,7 @@ import numpy as np
 
 from .. import coqrun
 from ..core import Corr
+from ..translate import cmpglue
 from ..coqrun import cbool, clist, cstr, cz
 
 PID = "C19"
@@ -43,7 +44,8 @@ EXC = {"ValueError": "EValue", "TypeError": "EType", "AttributeError": "EAttribu
 
 
 def translate(ctx):
-    return None
+    """Gen/CompareGlue.v: defaults, isinstance ladder, np.isclose operands, match test, return sites, ... of testing.py"""
+    cmpglue.generate(ctx.repo)
 
 
 # ------------------------------------------------------------------------------------------------------
@@ -239,8 +241,16 @@ VARIANTS = [(True, False, None), (False, False, None), (True, True, None), (Fals
             (True, False, "capture"), (False, True, "capture")]
 
 
-def impl_run(q, variant=VARIANTS[0]):
-    """-> ("Ok", bool) | ("Raise", E...) | ("Bad", description)"""
+def _snap(x):
+    """a text that changes when a caller's object is modified in place (repr of nested containers / arrays)"""
+    with np.printoptions(threshold=10000, precision=17, floatmode="unique"):
+        return repr(x)
+
+
+def impl_run(q, variant=VARIANTS[0], objs=None):
+    """-> ("Ok", bool) | ("Raise", E...) | ("Bad", description)
+    q.get("omit"): the option keywords are NOT passed (the signature defaults apply; q["o"] holds the documented ones);
+    objs: (expected, computed) live objects to use instead of building fresh ones (sequence streams)"""
     from qcelemental.testing import compare, compare_molrecs, compare_recursive, compare_values
     quiet, rm, hk = variant
     kw = {"quiet": quiet, "return_message": rm}
@@ -250,28 +260,40 @@ def impl_run(q, variant=VARIANTS[0]):
             cap.append((passfail, return_message, quiet_))
             return "handled"
         kw["return_handler"] = handler
-    e, c, o = to_py(q["e"]), to_py(q["c"]), q["o"]
+    o = q["o"]
+    if objs is not None:
+        e, c = objs
+    elif q.get("same"):
+        e = c = to_py(q["e"])                      # one object handed over as expected AND computed
+    else:
+        e, c = to_py(q["e"]), to_py(q["c"])
+    omit = bool(q.get("omit"))
+    if omit and variant == VARIANTS[0]:
+        kw = {}                                    # quiet / return_message at their defaults too
+    e0, c0 = _snap(e), _snap(c)
     try:
         with warnings.catch_warnings():
             warnings.simplefilter("ignore")
             with np.errstate(all="ignore"):
                 if q["fn"] == "values":
-                    r = compare_values(e, c, "lbl", atol=hf(o["atol"]), rtol=hf(o["rtol"]), equal_nan=o["equal_nan"],
-                                       equal_phase=o["equal_phase"], passnone=o["passnone"], **kw)
+                    ok_ = {} if omit else dict(atol=hf(o["atol"]), rtol=hf(o["rtol"]), equal_nan=o["equal_nan"],
+                                               equal_phase=o["equal_phase"], passnone=o["passnone"])
+                    r = compare_values(e, c, "lbl", **ok_, **kw)
                 elif q["fn"] == "compare":
-                    r = compare(e, c, "lbl", equal_phase=o["equal_phase"], **kw)
+                    ok_ = {} if omit else dict(equal_phase=o["equal_phase"])
+                    r = compare(e, c, "lbl", **ok_, **kw)
                 elif q["fn"] == "mol":
-                    e0, c0 = repr(e), repr(c)
                     mk = dict(kw)
-                    mk["verbose"] = 0 if mk.pop("quiet") else 1
-                    r = compare_molrecs(e, c, "lbl", atol=hf(o["atol"]), rtol=hf(o["rtol"]),
-                                        forgive=(None if o["forgive"] is None else list(o["forgive"])), **mk)
-                    if repr(e) != e0 or repr(c) != c0:
-                        return ("Bad", "compare_molrecs modified its inputs")
+                    if "quiet" in mk:
+                        mk["verbose"] = 0 if mk.pop("quiet") else 1
+                    ok_ = {} if omit else dict(atol=hf(o["atol"]), rtol=hf(o["rtol"]),
+                                               forgive=(None if o["forgive"] is None else list(o["forgive"])))
+                    r = compare_molrecs(e, c, "lbl", **ok_, **mk)
                 else:
                     ep = o["equal_phase"]
-                    rk = dict(atol=hf(o["atol"]), rtol=hf(o["rtol"]), forgive=(None if o["forgive"] is None else list(o["forgive"])),
-                              equal_phase=(ep if isinstance(ep, bool) else list(ep)), **kw)
+                    rk = {} if omit else dict(atol=hf(o["atol"]), rtol=hf(o["rtol"]), forgive=(None if o["forgive"] is None else list(o["forgive"])),
+                                              equal_phase=(ep if isinstance(ep, bool) else list(ep)))
+                    rk.update(kw)
                     if q.get("via") == "model":
                         Bag = _model_cls()
                         r = Bag(**e).compare(Bag(**c), **rk)
@@ -279,10 +301,14 @@ def impl_run(q, variant=VARIANTS[0]):
                         r = compare_recursive(e, c, "lbl", **rk)
     except Exception as ex:  # noqa
         name = type(ex).__name__
+        if _snap(e) != e0 or _snap(c) != c0:
+            return ("Bad", "the helper modified its inputs (and raised " + name + ")")
         for cls in type(ex).__mro__:
             if cls.__name__ in EXC:
                 return ("Raise", EXC[cls.__name__])
         return ("Bad", "raised " + name)
+    if _snap(e) != e0 or _snap(c) != c0:
+        return ("Bad", "the helper modified its inputs")
     if hk == "capture":
         if r != "handled" or len(cap) != 1 or cap[0][1] != rm or cap[0][2] != quiet:
             return ("Bad", f"return_handler protocol broken: returned {r!r}, calls {cap!r}")
@@ -653,6 +679,13 @@ def spec_massage(t):
 
 def oracle(q, out):
     """None (fine / abstained) or a dict describing the violation."""
+    if q["fn"] in ("rec", "mol") and hf(q["o"]["atol"]) >= 1:
+        # the documented refusal (since v0.4.0 an atol >= 1 is no longer read as 10**-atol): ValueError, whatever the data
+        _stat("oracle_judges_refusal")
+        if out == ("Raise", "EValue"):
+            return None
+        got = f"returned {out[1]}" if out[0] == "Ok" else f"raised {out[1]}" if out[0] == "Raise" else out[1]
+        return {"what": f"{q['fn']}: atol >= 1 must be refused with ValueError, the implementation {got}", "want": "ValueError", "tag": "refusal"}
     try:
         if q["fn"] == "values":
             o = q["o"]
@@ -1368,6 +1401,189 @@ def gen_molrecs(ctx, n):
     return out
 
 
+def gen_defaults(ctx):
+    """every public entry point called WITHOUT its option keywords: the signature defaults decide (documented: atol=1e-6,
+    rtol=1e-16, all flags off); perturbations around that edge and inputs on which a flag would change the verdict"""
+    rng = ctx.rng
+    out = []
+    for ref in REFS[:12]:
+        T = 1e-6 + 1e-16 * abs(ref)
+        for sgn in (1, -1):
+            for k in (-2, -1, 0, 1, 2):
+                cval = nxt(ref + sgn * T, k)
+                if not math.isfinite(cval):
+                    continue
+                kind = rng.choice(["values", "values", "rec", "model", "mol"])
+                if kind == "values":
+                    q = QV(build(rng, (), [ref], "float"), build(rng, (), [cval], "float"))
+                elif kind in ("rec", "model"):
+                    q = QR(D([("a", F(ref)), ("b", I(1))]), D([("a", F(cval)), ("b", I(1))]), via=("model" if kind == "model" else "direct"))
+                else:
+                    prov = D([("creator", S("QCElemental")), ("version", S("v1"))])
+                    q = {"fn": "mol", "o": opts_r(), "e": D([("geom", A("float", (3,), [F(0.0)[2:], F(ref)[2:], F(1.0)[2:]])), ("provenance", prov)]),
+                         "c": D([("geom", A("float", (3,), [F(0.0)[2:], F(cval)[2:], F(1.0)[2:]])), ("provenance", prov)])}
+                q["omit"] = True
+                out.append(("defaults", q))
+    flagged = [QV(F(math.nan), F(math.nan)), QV(L([F(1.0), F(2.0)]), L([F(-1.0), F(-2.0)])), QV(NONE, NONE), QV(F(1.0), F(1.0 + 5e-6)),
+               QV(F(1e10), F(1e10 + 1e-3)), QV(F(1e10), F(1e10 * (1 + 1e-15))),
+               QC(L([I(1), I(2)]), L([I(-1), I(-2)])), QC(L([I(1), I(2)]), L([I(1), I(2)])),
+               QR(D([("a", F(1.0))]), D([("a", F(-1.0))])), QR(D([("a", F(1.0)), ("b", F(2.0))]), D([("a", F(1.0))])),
+               QR(D([("a", F(1e10))]), D([("a", F(1e10 + 1e-3))]))]
+    for q in flagged:
+        q["omit"] = True
+        out.append(("defaults", q))
+    return out
+
+
+def gen_option_products(ctx):
+    """the full product of the flags (and, later, of the reporting options) on inputs where each flag decides"""
+    out = []
+    nan = math.nan
+    pairs = [(F(nan), F(nan)), (L([F(1.0), F(nan)]), L([F(1.0), F(nan)])), (L([F(1.0), F(nan)]), L([F(-1.0), F(nan)])),
+             (NONE, NONE), (L([F(1.0), F(2.0)]), L([F(-1.0), F(-2.0)])), (L([F(1.0), F(2.0)]), L([F(-1.0), F(2.0)])),
+             (F(1.0), F(1.0)), (F(1.0), F(1.5)), (C(1 + 1j), C(-1 - 1j)), (L([C(complex(nan, 0))]), L([C(complex(0, nan))])),
+             (A("float", (2,), [F(1.0)[2:], F(2.0)[2:]]), A("float", (2,), [F(-1.0)[2:], F(-2.0)[2:]])),
+             (A("float", (2,), [F(1.0)[2:], F(nan)[2:]]), L([F(-1.0), F(nan)], tup=True))]
+    for e, c in pairs:
+        for eqn in (False, True):
+            for ph in (False, True):
+                for pn in (False, True):
+                    out.append(("option-product", QV(e, c, equal_nan=eqn, equal_phase=ph, passnone=pn)))
+    cp = [(L([I(1), I(2)]), L([I(-1), I(-2)])), (L([I(1), I(2)]), L([I(1), I(2)])), (L([B(True)]), L([B(False)])), (S("a"), S("a")),
+          (S("a"), S("b")), (A("int", (2,), [I(1)[2:], I(0)[2:]]), A("float", (2,), [F(-1.0)[2:], F(-0.0)[2:]])), (F(1.5), F(-1.5)),
+          # strings that differ only beyond the width of the other side's fixed-width dtype
+          (S("cat"), S("cats")), (S("cats"), S("cat")), (L([S("H"), S("He")]), L([S("H"), S("Hel")])), (L([S("H"), S("Hel")]), L([S("H"), S("He")])),
+          (A("str", (2,), [S("ab")[2:], S("c")[2:]]), A("str", (2,), [S("ab")[2:], S("cd")[2:]])),
+          (A("str", (2,), [S("ab")[2:], S("c")[2:]]), A("str", (2,), [S("abz")[2:], S("c")[2:]])), (S(""), S("x")), (S("x"), S(""))]
+    for e, c in cp:
+        for ph in (False, True):
+            out.append(("option-product", QC(e, c, equal_phase=ph)))
+    # the very same object as expected and as computed (an identity shortcut must not bypass the rule: NaN, unknown types)
+    same = [F(nan), F(nan, np_=True), L([F(1.0), F(nan)]), A("float", (2,), [F(1.0)[2:], F(nan)[2:]]), F(1.0), L([F(1.0), F(2.0)]),
+            C(complex(nan, 1.0)), NONE, L([L([F(1.0), F(2.0)]), L([F(3.0)])])]
+    for x in same:
+        for eqn in (False, True):
+            for ph in (False, True):
+                out.append(("option-product", dict(QV(x, x, equal_nan=eqn, equal_phase=ph), same=True)))
+    for x in [D([("a", F(nan))]), D([("a", L([F(1.0), F(nan)]))]), D([("a", A("float", (1,), [F(nan)[2:]]))]), D([("a", ["other"])]),
+              D([("a", F(1.0)), ("b", S("x"))]), D([("a", F(nan, np_=True))])]:
+        for ep in (False, True):
+            out.append(("option-product", dict(QR(x, x, equal_phase=ep), same=True)))
+            out.append(("option-product", dict(QR(x, x, equal_phase=ep, forgive=["a"]), same=True)))
+    for x in [L([F(nan)]), A("float", (1,), [F(nan)[2:]]), L([I(1), I(2)]), L([NONE, I(1)])]:
+        out.append(("option-product", dict(QC(x, x, equal_phase=True), same=True)))
+    # the isinstance ladder: for every leaf type a computed value on which the exact rule and the tolerance rule differ
+    # (or on which a neighbouring branch would answer differently), so the order of the tests and numpy's subclass relations decide
+    z = 1 + 1j
+    near = 1.0 + 2.0 ** -30
+    ladder = [(C(z, np_=True), C(z + 1e-9)), (C(z, np_=True), C(z, np_=True)), (C(z), C(z + 1e-9)), (C(z), C(z, np_=True)),
+              (C(z, np_=True), C(-z)), (C(z), C(-z)),
+              (I(1, np_=True), F(near)), (I(1), F(near)), (I(1), F(1.0)), (I(1, np_=True), I(1)), (I(1), I(1, np_=True)), (I(1, np_=True), I(-1)), (I(1), I(-1)),
+              (B(True), F(near)), (B(True), I(1)), (B(True), F(1.0)), (B(True, np_=True), F(near)), (B(True, np_=True), I(1)),
+              (B(True, np_=True), B(True)), (B(False, np_=True), F(2.0 ** -30)), (B(False), NONE),
+              (F(1.0), F(near)), (F(1.0, np_=True), F(near)), (F(1.0), I(1)), (F(1.0, np_=True), B(True)), (F(1.0), F(-1.0)), (F(1.0, np_=True), F(-1.0)),
+              (S("ab"), S("ab", np_=True)), (S("ab", np_=True), S("ab")), (S("ab", np_=True), S("abc")), (S("1", np_=True), S("1")),
+              (NONE, NONE), (NONE, F(math.nan)), (NONE, B(False)), (F(0.0), NONE),
+              (L([F(1.0)], tup=True), L([F(near)])), (L([F(1.0)]), L([F(near)], tup=True)), (L([I(1)], tup=True), L([F(near)])),
+              (A("float", (1,), [F(1.0)[2:]]), L([F(near)])), (A("int", (1,), [I(1)[2:]]), L([F(near)])), (A("int", (1,), [I(1)[2:]]), L([I(-1)])),
+              (A("complex", (1,), [C(z)[2:]]), L([C(z + 1e-9)])), (A("bool", (1,), [B(True)[2:]]), L([F(near)])),
+              (A("str", (1,), [S("a")[2:]]), L([S("a")])), (["other"], ["other"]), (["other"], F(1.0))]
+    for e, c in ladder:
+        for ep in (False, True):
+            out.append(("ladder", QR(D([("k", e)]), D([("k", c)]), equal_phase=ep)))
+    e = D([("a", D([("b", F(1.0)), ("c", F(2.0))])), ("ab", F(3.0)), ("l", L([F(1.0), I(2)]))])
+    cs = [D([("a", D([("b", F(-1.0)), ("c", F(2.0))])), ("ab", F(3.0)), ("l", L([F(1.0), I(2)]))]),
+          D([("a", D([("b", F(-1.0)), ("c", F(2.5))])), ("ab", F(-3.0)), ("l", L([F(1.0), I(2)]))]),
+          D([("a", D([("b", F(1.0)), ("c", F(2.0))])), ("ab", F(3.0)), ("l", L([F(1.0), I(3)])), ("x", I(1))]), e]
+    fgs = [None, [], ["a"], ["a.b"], ["ab"], ["a", "ab"], ["l.1"], ["root"], ["root.a.b", "a.c"]]
+    eps = [False, True, [], ["a"], ["a.b"], ["ab"], ["a.b", "ab"], ["root.a"]]
+    for c in cs:
+        for fg in fgs:
+            for ep in eps:
+                out.append(("option-product", QR(e, c, forgive=fg, equal_phase=ep)))
+    return out
+
+
+def gen_boundaries(ctx):
+    """boundaries that are not tolerance edges: the atol >= 1 refusal, unusable tolerances below a leaf, empty containers,
+    entries naming the root, empty keys"""
+    out = []
+    e1, c1, c2 = D([("a", F(1.0)), ("n", I(1))]), D([("a", F(1.0)), ("n", I(1))]), D([("a", F(1.75)), ("n", I(1))])
+    for a in (nxt(1.0, -1), 1.0, nxt(1.0, 1), 0.5, 0.75, 2.0, 1e300, math.inf, math.nan, 0.0, -0.0, -1e-6, 5e-324, -math.inf):
+        for c in (c1, c2):
+            out.append(("boundary", QR(e1, c, atol=a)))
+            out.append(("boundary", QR(D([("n", I(1))]), D([("n", I(1 if c is c1 else 2))]), atol=a)))
+            out.append(("boundary", {"fn": "mol", "o": opts_r(atol=a), "e": D([("geom", A("float", (1,), [F(1.0)[2:]]))]),
+                                     "c": D([("geom", A("float", (1,), [F(1.0 if c is c1 else 1.75)[2:]]))])}))
+    for r in (0.0, 1e-12, nxt(1e-12, 1), 1.0, 10.0, 1e300):
+        out.append(("boundary", QV(F(2.0), F(2.0 + 1e-3), rtol=r)))
+        out.append(("boundary", QV(F(2.0), F(nxt(2.0 + (1e-6 + r * 2.0), 1)), rtol=r)))
+        out.append(("boundary", QV(F(1e300), F(-1e300), rtol=r)))
+    empties = [L([]), D([]), A("float", (0,), []), L([L([])]), S(""), L([], tup=True)]
+    def modelled(e, c):         # an exact leaf against an ndarray (truth value of an elementwise !=) is outside the model
+        return not (e[0] == "sc" and e[2] in ("str", "int", "bool", "complex") and c[0] == "arr")
+    for x in empties:
+        for y in empties + [NONE, F(0.0)]:
+            if modelled(x, y):
+                out.append(("boundary", QR(D([("k", x)]), D([("k", y)]))))
+            if modelled(y, x):
+                out.append(("boundary", QR(D([("k", y)]), D([("k", x)]), forgive=[""])))
+    t1, t2 = D([("", F(1.0)), ("a", D([("", F(2.0))]))]), D([("", F(1.5)), ("a", D([("", F(2.5))]))])
+    for fg in (["root"], ["root."], [""], ["."], ["a"], ["a."], ["root.a."], ["root.root"], ["root", "root"], ["a", "a", "a."]):
+        out.append(("boundary", QR(t1, t2, forgive=fg)))
+        out.append(("boundary", QR(t1, t2, equal_phase=fg)))
+        out.append(("boundary", QR(D([("root", F(1.0))]), D([("root", F(2.0))]), forgive=fg)))
+    return out
+
+
+def gen_sequences(ctx, n):
+    """several calls on ONE pair of live objects with changing options (a verdict must not depend on earlier calls, and
+    the caller's objects must not change): [(stream, [q, q, ...])], every q of a sequence shares the e / c trees"""
+    rng = ctx.rng
+    out = []
+    for _ in range(n):
+        r = rng.random()
+        if r < 0.4:
+            atol = rng.choice([1e-9, 1e-6, 1e-3])
+            g = TreeGen(rng, atol, 1e-16)
+            size = rng.choice([1, 3, 4])
+            shape = {1: (), 3: (3,), 4: (2, 2)}[size]
+            ev = [g.fval() for _ in range(size)]
+            cv = list(ev)
+            pos = rng.randrange(size)
+            cv[pos] = g.perturb_f(cv[pos])
+            if rng.random() < 0.5:
+                cv = [-v for v in cv]
+            e, c = build(rng, shape, ev, "float"), build(rng, shape, cv, "float")
+            qs = []
+            for _ in range(rng.choice([3, 4, 6])):
+                qs.append(QV(e, c, atol=rng.choice([atol, atol * 1e3, atol * 1e-3, 10.0]), rtol=rng.choice([1e-16, 1e-2]),
+                             equal_phase=rng.random() < 0.5, equal_nan=rng.random() < 0.3))
+        elif r < 0.55:
+            ev = [rng.choice([0, 1, -1, 2, 7]) for _ in range(3)]
+            cv = [-v for v in ev] if rng.random() < 0.6 else list(ev)
+            e, c = build(rng, (3,), ev, "int"), build(rng, (3,), cv, "int")
+            qs = [QC(e, c, equal_phase=ph) for ph in rng.sample([False, True, True, False, False, True], 4)]
+        else:
+            atol = rng.choice([1e-9, 1e-6, 1e-4])
+            g = TreeGen(rng, atol, 1e-16)
+            e = g.tree(rng.choice([2, 3]))
+            if e[0] != "dict":
+                e = D([(rng.choice(KEYS), e)])
+            hot = []
+            c = g.flip(e, 0.5, hot) if rng.random() < 0.5 else g.one_edge(e, hot)
+            if rng.random() < 0.4:
+                c = g.one_edge(c, hot)
+            qs = []
+            for _ in range(rng.choice([3, 4, 5])):
+                fg = None if rng.random() < 0.4 else entries_from(rng, hot or [("a",)], rng.choice([1, 2]))
+                rr = rng.random()
+                ep = False if rr < 0.4 else True if rr < 0.7 else entries_from(rng, hot or [("a",)], 1)
+                qs.append(QR(e, c, atol=rng.choice([atol, atol * 1e3, atol * 1e-3]), forgive=fg, equal_phase=ep))
+        out.append(("sequence", qs))
+    return out
+
+
 def corpus():
     """old failing inputs (fixed defects must stay fixed), the known findings, docstring-like cases"""
     cs = []
@@ -1426,6 +1642,8 @@ def corpus():
 
 
 BATCH = 24000
+SEQ_GROUPS = []          # the sequences of the current run (filled by case_batches, checked by sequence_checks)
+FULL_STREAMS = {"corpus", "defaults", "option-product", "boundary", "ladder"}      # every reporting-option variant on every case
 
 
 def case_batches(ctx):
@@ -1438,6 +1656,13 @@ def case_batches(ctx):
     first += gen_compare(ctx, 12000 if big else 1200)
     first += gen_confusion(ctx, 4 if big else 1)
     first += gen_molrecs(ctx, 8000 if big else 700)
+    first += gen_defaults(ctx)
+    first += gen_option_products(ctx)
+    first += gen_boundaries(ctx)
+    SEQ_GROUPS.clear()
+    for stream, qs in gen_sequences(ctx, 4000 if big else 300):
+        SEQ_GROUPS.append(qs)
+        first += [(stream, q) for q in qs]
     if big:
         yield first
         first = []
@@ -1535,6 +1760,78 @@ def molrec_checks(ctx, corr):
 
 # ------------------------------------------------------------------------------------------------------
 
+def sequence_run(qs, rng=None, variants=None):
+    """the queries of one sequence on ONE pair of live objects, in order -> (list of outcomes, variants used)"""
+    e, c = to_py(qs[0]["e"]), to_py(qs[0]["c"])
+    if variants is None:
+        variants = [list(rng.choice(VARIANTS)) for _ in qs]
+    return [impl_run(q, tuple(v), objs=(e, c)) for q, v in zip(qs, variants)], variants
+
+
+def sequence_failure(qs, outs, variants):
+    """the first call of the sequence whose outcome differs from the same call on fresh objects"""
+    for i, (q, o) in enumerate(zip(qs, outs)):
+        fresh = impl_run(q, VARIANTS[0])
+        if o != fresh:
+            return {"stream": "sequence", "case": {"sequence": qs, "variants": variants, "index": i},
+                    "what": f"call {i + 1} of {len(qs)} on the same live objects gave {o}, the same call on fresh objects {fresh}: "
+                            "the verdict depends on earlier calls or the caller's objects were changed",
+                    "observed": list(o), "expected": list(fresh)}
+    return None
+
+
+def sequence_checks(ctx, corr):
+    for qs in SEQ_GROUPS:
+        outs, variants = sequence_run(qs, ctx.rng)
+        corr.count("sequence-live", len(qs))
+        bad = sequence_failure(qs, outs, variants)
+        if bad:
+            corr.failures.append(bad)
+    # the module-level functions once more after everything else ran in this process: the corpus verdicts are unchanged
+    for stream, q in corpus():
+        out = impl_run(q, VARIANTS[0])
+        corr.count("corpus-after-history")
+        bad = oracle(q, out) if out[0] != "Bad" else {"what": out[1], "want": None, "tag": "bad"}
+        if bad:
+            corr.failures.append({"stream": "oracle-" + q["fn"], "case": {"query": q}, "what": "after the whole run: " + bad["what"],
+                                  "observed": list(out), "expected": bad.get("want"), "tag": bad.get("tag")})
+
+
+def node_hits(corr, q):
+    """which model branches a query reaches: the Python types of the nodes of [expected] (the isinstance ladder), the dtype
+    rule and the dimensionality for the array functions, the options that were on"""
+    def walk(t):
+        k = t[0]
+        if k == "sc":
+            corr.hit("node_" + ("np." if t[1] else "") + t[2])
+        elif k == "arr":
+            corr.hit("node_ndarray_" + t[1])
+        elif k == "other":
+            corr.hit("node_set")
+        else:
+            corr.hit("node_" + ("tuple" if k == "list" and t[1] else k))
+            for x in (t[2] if k == "list" else [v for _, v in t[1]]):
+                walk(x)
+    o = q["o"]
+    if q["fn"] in ("rec", "mol"):
+        walk(q["e"])
+        if o["forgive"]:
+            corr.hit("opt_forgive")
+        if o["equal_phase"]:
+            corr.hit("opt_equal_phase_" + ("bool" if o["equal_phase"] is True else "list"))
+    else:
+        try:
+            sh = flat(q["e"])[0]
+            corr.hit(f"{q['fn']}_ndim_{len(sh)}")
+        except Exception:  # noqa
+            corr.hit(f"{q['fn']}_not_array")
+        for k in ("equal_nan", "equal_phase", "passnone"):
+            if o.get(k):
+                corr.hit("opt_" + k)
+    if q.get("omit"):
+        corr.hit("opt_defaults_omitted")
+
+
 def judge_case(q, full_variants, rng):
     """run the implementation (with reporting-option variants), return (out, failure-or-None)"""
     out = impl_run(q, VARIANTS[0])
@@ -1598,8 +1895,9 @@ def correspond(ctx):
         for bi, cases in enumerate(case_batches(ctx)):
             terms, meta = [], []
             for stream, q in cases:
-                out, bad = judge_case(q, stream == "corpus" or ctx.rng.random() < 0.02, ctx.rng)
+                out, bad = judge_case(q, stream in FULL_STREAMS or ctx.rng.random() < 0.02, ctx.rng)
                 corr.count(stream)
+                node_hits(corr, q)
                 corr.hit(f"{q['fn']}_{out[0]}_{out[1] if out[0] != 'Bad' else 'bad'}")
                 if q.get("via") == "model":
                     corr.hit("rec_via_ProtoModel.compare")
@@ -1628,6 +1926,7 @@ def correspond(ctx):
     if state["nbad"] > 8:
         corr.notes.append(f"{state['nbad']} disagreements in total; first 8 listed")
     molrec_checks(ctx, corr)
+    sequence_checks(ctx, corr)
     for k, v in sorted(ORACLE_STATS.items()):
         corr.hit(k, v)
     ORACLE_STATS.clear()
@@ -1653,6 +1952,12 @@ def replay(ctx, rp):
         expect, got, untouched = molrec_case(m["changes"], m["forgive"], tuple(m["variant"]))
         return {"molrecs": m, "expected": expect, "implementation": str(got), "inputs_untouched": untouched,
                 "fails": (got is not expect) or not untouched}
+    if "sequence" in case:
+        qs = case["sequence"]
+        outs, variants = sequence_run(qs, variants=case["variants"])
+        bad = sequence_failure(qs, outs, variants)
+        return {"sequence": qs, "variants": variants, "outcomes_on_live_objects": [list(o) for o in outs],
+                "failure": (bad or {}).get("what"), "fails": bool(bad)}
     q = case["query"]
     out, bad = judge_case(q, True, ctx.rng)
     return {"query": q, "python": {"expected": repr(to_py(q["e"])), "computed": repr(to_py(q["c"]))},
@@ -1667,7 +1972,15 @@ KNOWN = {}
 
 TRUSTED = [
     "hand-written model coq/Model/Compare.v of testing.py (compare_values, compare, _compare_recursive, compare_recursive, "
-    "_handle_return), tied by bit-exact differential execution through vm_compute (this file)",
+    "compare_molrecs, ProtoModel.compare, _handle_return), tied by bit-exact differential execution through vm_compute (this file) "
+    "and, for its glue, by the generated file below",
+    "translator harness/translate/cmpglue.py (Python ast of testing.py / basemodels.py -> coq/Gen/CompareGlue.v, fail-closed, every "
+    "run): keyword defaults, the isinstance ladder of _compare_recursive with the subclass facts and np.issubdtype(.., np.floating) "
+    "taken from the running Python/numpy, the keywords of the inner calls, np.isclose's operand order and keywords (first try and "
+    "phase retry), node-name / entry-normalisation / match-test expressions, the atol >= 1 refusal, the verdict expression and the "
+    "(return_message, quiet) order at every return site, massage_dicts' keys and compare_molrecs' forwarded keywords, "
+    "ProtoModel.compare's forwarding call; the statements it only checks textually (casts, shape test, removal-loop skeleton, "
+    "message-only blocks) are trusted to mean what the model says; Proofs/CompareGlue.v proves generated = hand model for all inputs",
     "PrimFloat kernel primitives = IEEE-754 binary64 as used by CPython/numpy (add, sub, mul, abs, leb, eqb, sqrt, of_uint63)",
     "numpy array construction (shape discovery, dtype inference, casting), elementwise ==, unary minus and np.isclose's formula are "
     "modelled, not verified; complex |z| is modelled as sqrt(re^2+im^2) (C hypot may differ by an ulp: complex correspondence cases "
@@ -1685,7 +1998,8 @@ ASSUMPTIONS = [
     "for the segment reading of forgive/equal_phase (key-boundary theorem): keys contain no '.'",
 ]
 TECHNIQUE = ("Coq proof over a hand-written Gallina model with binary64 leaves as kernel primitive floats (structural induction over "
-             "trees of any depth and width) + bit-exact differential correspondence against the implementation + independent Python oracle")
+             "trees of any depth and width) + glue of testing.py regenerated into Coq by a fail-closed translator and proved equal to the "
+             "model + bit-exact differential correspondence against the implementation + independent Python oracle")
 DESIGN_REF = "DESIGN.md §6 C19"
 LEVEL_TEXT = (
     "Machine-checked (Coq 8.16.1) theorems about Model/Compare.v, whose leaves are binary64 kernel floats and whose trees have any "
@@ -1709,20 +2023,45 @@ LEVEL_TEXT = (
     "C19_handler_receives_verdict, C19_bool_leaf_exact (bool and numpy.bool_ leaves are exact leaves), C19_molrecs_is_recursive "
     "(compare_molrecs, exact mode, is compare_recursive on the normalised records), C19_molrecs_normalise_idempotent (files to str, "
     "separators to int, version popped, bonds as (min, max, order) stably sorted on the first atom: normalising twice changes "
-    "nothing), C19_molrecs_version_forgiven, C19_molrecs_bond_orientation, C19_protomodel_compare. "
+    "nothing), C19_molrecs_version_forgiven, C19_molrecs_bond_orientation, C19_protomodel_compare. Companions (wave 3): "
+    "C19_compare_values_no_phase_spec (equal_phase off: True <-> all elements close, no sign flip), C19_nan_only_on_request (either side "
+    "NaN: the binary64 test is true exactly when equal_nan and both are NaN; FloatAxioms), C19_complex_real_axis_is_real_rule (complex "
+    "data with zero imaginary parts are judged by the real rule, all values; FloatAxioms), C19_compare_false_spec (the False verdict of "
+    "the exact comparison, exactly), C19_options_inert_molrecs / C19_handler_receives_verdict_molrecs (compare_molrecs incl. "
+    "quiet=(verbose == 0), ProtoModel.compare), C19_public_verdicts (for all five entry points the value returned through the default "
+    "handler carries verdict b exactly when the core says b), C19_molrecs_other_keys_untouched. Generated glue (Gen/CompareGlue.v, from "
+    "the source on every run) proved equal to the hand model for all inputs: C19_glue_defaults (atol=1e-6, rtol=1e-16 as binary64, flags "
+    "off, verbose=1, relative_geoms='exact'), C19_glue_ladder (what cmp_rec does at a node is what the source's isinstance ladder, with "
+    "the running numpy's subclass facts, selects for the node's type; floating-dtype ndarrays through compare_values, others through "
+    "compare), C19_glue_tuple_as_list, C19_glue_leaf_options, C19_glue_isclose_calls (np.isclose(computed, expected, rtol, atol, "
+    "equal_nan), retry on -computed), C19_glue_matching (entry normalisation, match test, atol >= 1), C19_glue_compare_recursive, "
+    "C19_glue_child_names, C19_glue_return_sites, C19_glue_molrecs. "
     "The model is tied to testing.py on every run by bit-exact differential execution through vm_compute (floats cross as hex "
     "literals): tolerance-edge perturbations built with nextafter over atol 1e-12..1e-1 x rtol x flags x dtypes x shapes 0-3d, "
     "non-finite values, uncastable/ragged inputs, complex data, exact comparison, nested structures of depth <= 4 with perturbed "
     "leaves, extra/missing keys, type confusion, forgive / equal_phase lists incl. overlapping and prefix-but-not-parent entries, "
-    "ProtoModel.compare, and the reporting options varied on every case; an independent Python specification judges the "
+    "ProtoModel.compare, and the reporting options varied on every case; every entry point also with its option keywords omitted "
+    "(signature defaults), the full flag products, the isinstance ladder type by type, non-tolerance boundaries (atol >= 1 refusal, "
+    "unusable tolerances, empty containers and keys, entries naming the root), one object passed as both arguments, sequences of calls "
+    "with changing options on one pair of live objects (verdict independent of earlier calls) and a check on every call that the "
+    "caller's objects are unchanged; an independent Python specification judges the "
     "implementation's verdicts and yields the replays; compare_molrecs' normalisation is judged on the implementation.")
 LEVEL_NOTE = (
+    "Clause map: S1 numeric rule -> C19_compare_values_spec/_false_spec/_total/_raise_spec/_raises_only/_no_phase_spec, "
+    "C19_ragged_is_false, C19_glue_isclose_calls; over the reals C19_isclose_real_band (real data), "
+    "C19_complex_real_axis_is_real_rule + C19_modulus_model_error (complex; the band off the axes is correspondence/oracle only), "
+    "C19_nan_only_on_request. S2 exact rule -> C19_compare_spec/_false_spec/_never_raises. S3 recursion -> "
+    "C19_recursive_errors_are_failing_sites, C19_recursive_spec(_sites), C19_no_false_pass/_fail, C19_glue_ladder (leaf rule per type), "
+    "forgive: C19_forgive_key_boundary/_by_segments/_descends, C19_glue_matching; compare_molrecs: C19_molrecs_* (exact mode only), "
+    "Model.compare: C19_protomodel_compare. S4 options -> C19_options_inert(_molrecs), C19_handler_receives_verdict(_molrecs), "
+    "C19_glue_return_sites, C19_public_verdicts. "
     "Trusted: Coq kernel + vm_compute incl. its IEEE-754 binary64 primitives (listed by Print Assumptions as PrimFloat/PrimInt63 "
-    "constants; no FloatAxioms, no declared axiom); the hand-written model; numpy's array construction / casting / == / unary minus "
+    "constants; no FloatAxioms except under the four theorems named below, no declared axiom); the hand-written model (its glue is "
+    "regenerated from the source and proved equal; see TRUSTED for what the translator only checks textually); numpy's array construction / casting / == / unary minus "
     "and np.isclose's formula are modelled, not verified. The structural theorems state the closeness test as numpy's formula "
-    "evaluated in binary64 (what the code computes); C19_isclose_real_band relates it to the real-number inequality (real data; it "
-    "rests on the FloatAxioms specifications of the kernel primitives, the classical-reals axioms and excluded middle, all "
-    "allow-listed) and the Python oracle re-checks that band in exact rational arithmetic on every real case it applies to. Complex |z| is modelled as "
+    "evaluated in binary64 (what the code computes); C19_isclose_real_band relates it to the real-number inequality (real data; it and "
+    "C19_modulus_model_error rest on the FloatAxioms specifications of the kernel primitives, the classical-reals axioms and excluded middle, all "
+    "allow-listed; C19_nan_only_on_request and C19_complex_real_axis_is_real_rule on FloatAxioms only) and the Python oracle re-checks that band in exact rational arithmetic on every real case it applies to. Complex |z| is modelled as "
     "sqrt(re^2+im^2) (exact when axis-aligned); complex cases off the axes are generated down to 2^-44 (relative) from the edge and "
     "judged when at least 2^-46 away (C hypot and the modelled formula are both within 2 ulp of |z|; not proved in Coq). Outside the model "
     "(answer Unmodelled, excluded by every statement): ints >= 2^53, numeric-looking strings handed to compare_values, ndarrays "
